@@ -210,7 +210,8 @@ def targetResolve (packageURL subpath : Str) (pattern internal : Bool) (conditio
     else if (findInvalidSegment target).isSome then (target, .invalidPackageTarget)
     else
       let resolvedTarget := goJoin packageURL target
-      if (findInvalidSegment subpath).isSome then (subpath, .invalidModuleSpecifier)
+      -- findInvalidSegment("./" + subpath): unlike for the target, this includes the first segment of subpath
+      if (findInvalidSegment ('.' :: '/' :: subpath)).isSome then (subpath, .invalidModuleSpecifier)
       else if pattern then
         let result := replaceAllStar resolvedTarget subpath
         let status :=
